@@ -43,6 +43,7 @@ std::map<std::pair<long, long>, std::vector<Action>> g_handlers;
 unsigned long g_budget = 0;
 unsigned long g_seq = 1;
 std::string g_deliveries;
+unsigned long g_calls = 0;     // responses entered since the last `process` line started
 uinttime_t g_start = 1000;
 
 void perform(const Action& a, bool reentrant);
@@ -54,6 +55,10 @@ public:
     void on(long type, Event& ev)
     {
         const long me = id;                      // `this` may be deleted by one of the actions below
+        if (++g_calls > 200000) {                // a pass that never ends (only possible when the real loop is broken)
+            say("RUNAWAY-PASS");
+            std::_Exit(97);
+        }
         const long seq = ev.NumArgs() >= 1 ? ev.GetInteger(1) : -1;
         if (!g_deliveries.empty()) g_deliveries += ',';
         g_deliveries += std::to_string(me) + ":" + std::to_string(type) + ":" + std::to_string(seq) + "@" +
@@ -240,6 +245,7 @@ int main()
         }
         if (op == "process" && n.empty()) {
             g_deliveries.clear();
+            g_calls = 0;
             ctx->ProcessEvents();
             say("ok d=" + g_deliveries + " " + dumpQueue(*ctx));
             continue;
